@@ -154,6 +154,29 @@ def normalise(tree: ast.AST) -> None:
       * `x = x + y` / `x = x - y`        ->  `x += y` / `x -= y`        (plain names)
       * `t = <expr>; return t`           ->  `return <expr>`            (t used nowhere else)
     Line numbers of the surviving nodes are kept."""
+    # head, *rest = <expr>   ->   head = <expr>[0]; rest = <expr>[1:]      (the expression is a pure split / list in this code base)
+    for holder in ast.walk(tree):
+        for field in ('body', 'orelse', 'finalbody'):
+            body = getattr(holder, field, None)
+            if not isinstance(body, list):
+                continue
+            out = []
+            for st in body:
+                if (isinstance(st, ast.Assign) and len(st.targets) == 1 and isinstance(st.targets[0], ast.Tuple) and len(st.targets[0].elts) == 2 and isinstance(st.targets[0].elts[0], ast.Name)
+                        and isinstance(st.targets[0].elts[1], ast.Starred) and isinstance(st.targets[0].elts[1].value, ast.Name) and not isinstance(st.value, (ast.Tuple, ast.List))):
+                    import copy as _copy
+                    a = ast.Assign(targets=[ast.Name(st.targets[0].elts[0].id, ast.Store())], value=ast.Subscript(value=_copy.deepcopy(st.value), slice=ast.Constant(0), ctx=ast.Load()))
+                    b = ast.Assign(targets=[ast.Name(st.targets[0].elts[1].value.id, ast.Store())], value=ast.Subscript(value=_copy.deepcopy(st.value), slice=ast.Slice(lower=ast.Constant(1), upper=None, step=None), ctx=ast.Load()))
+                    for x in (a, b):
+                        ast.copy_location(x, st)
+                        ast.fix_missing_locations(x)
+                        for y in ast.walk(x):
+                            if not hasattr(y, 'lineno'):
+                                y.lineno = st.lineno
+                    out += [a, b]
+                else:
+                    out.append(st)
+            body[:] = out
     for n in ast.walk(tree):
         if isinstance(n, ast.If) and isinstance(n.test, ast.UnaryOp) and isinstance(n.test.op, ast.Not) and n.orelse and not (len(n.orelse) == 1 and isinstance(n.orelse[0], ast.If)):
             n.test = n.test.operand
